@@ -8,7 +8,17 @@
 (*   Raise(req)     : a device stores a request in CPU.Interrupt            *)
 (*   Poke(cells)    : the environment writes memory                         *)
 (*   Snapshot       : the CPU object is rebuilt from copies (a stutter)     *)
+(*   Fork           : the CPU struct is copied by value and the run goes on *)
+(*                    with the copy (a stutter: nothing but the struct's    *)
+(*                    fields is state)                                       *)
+(*   SwapMemory     : CPU.Memory is replaced by another object with the     *)
+(*                    same contents (a stutter: nothing is cached)          *)
+(*   LoadRegs(r)    : the host loads the registers (next program on the     *)
+(*                    same CPU); the halted indication stays                *)
 (*   RunCall(bp)    : one CPU.Run call (Z80Run)                              *)
+(* The trace specification has one event per action (s f q p snap fork      *)
+(* swapmem regs r); the stutters are where hidden state shows up: the       *)
+(* implementation does something, the specification nothing.                *)
 (* Bounded configurations live in mc/MC_*.tla; the trace specification      *)
 (* (Z80Trace) reuses the same operators to validate recorded executions.    *)
 (***************************************************************************)
@@ -28,5 +38,8 @@ FeedStep(code) == \E o \in StepSet(PlaceAtPC(c, code)) : c' = Settle(o)
 Raise(req) == c' = [c EXCEPT !.pend = req]
 Poke(cells) == c' = [c EXCEPT !.m = cells @@ @]
 Snapshot == UNCHANGED c
+Fork == UNCHANGED c
+SwapMemory == UNCHANGED c
+LoadRegs(r) == c' = [c EXCEPT !.r = r]
 RunCall(bp) == \E x \in RunResults(c, bp, NoSched, 2000).done : c' = Settle(x.c)
 =============================================================================
